@@ -38,6 +38,8 @@ type GRPCServerMuxer struct {
 	ln     net.Listener
 	logger hclog.Logger
 
+	yamuxCfg *yamux.Config
+
 	sessionErrCh chan error
 	sess         *yamux.Session
 
@@ -48,10 +50,20 @@ type GRPCServerMuxer struct {
 }
 
 func NewGRPCServerMuxer(logger hclog.Logger, ln net.Listener) *GRPCServerMuxer {
+	// Build the yamux configuration here rather than in the accept goroutine:
+	// yamux.DefaultConfig reads os.Stderr, which Serve replaces shortly after
+	// creating the muxer.
+	cfg := yamux.DefaultConfig()
+	cfg.Logger = logger.Named("yamux").StandardLogger(&hclog.StandardLoggerOptions{
+		InferLevels: true,
+	})
+	cfg.LogOutput = nil
+
 	m := &GRPCServerMuxer{
-		addr:   ln.Addr(),
-		ln:     ln,
-		logger: logger,
+		addr:     ln.Addr(),
+		ln:       ln,
+		logger:   logger,
+		yamuxCfg: cfg,
 
 		sessionErrCh: make(chan error),
 
@@ -77,12 +89,7 @@ func (m *GRPCServerMuxer) acceptSession(ln net.Listener) {
 	}
 
 	m.logger.Debug("initial server connection accepted", "addr", m.addr)
-	cfg := yamux.DefaultConfig()
-	cfg.Logger = m.logger.Named("yamux").StandardLogger(&hclog.StandardLoggerOptions{
-		InferLevels: true,
-	})
-	cfg.LogOutput = nil
-	m.sess, err = yamux.Server(conn, cfg)
+	m.sess, err = yamux.Server(conn, m.yamuxCfg)
 	if err != nil {
 		m.sessionErrCh <- err
 		return
